@@ -411,6 +411,7 @@ fn main() {
     macro_rules! add {
         ($U:ty, $I:ty) => {
             jobs_for::<$U, $I>(&mut jobs);
+            checks::siblings::topic_jobs::<$U, $I>(&mut jobs, checks::siblings::Group::DivRem, 150, FACTOR);
         };
     }
     for_all_cfgs!(add);
@@ -418,7 +419,7 @@ fn main() {
     runner::main(
         Property {
             id: "C03",
-            rule: "(dividend, divisor) pairs come from: (1) structured patterns with the divisor shaped to k = 1..N significant digits and 0..digit_bits-1 leading zeros in its top digit; (2) backwards construction n = q*d + r with r in {0, 1, d-1, d/2, random, d-delta} and extreme quotient digits; (3) Algorithm-D stress shapes scaled to each digit base (Hacker's Delight add-back and qhat=b+1 cases, dividends whose leading digits equal the divisor's, divisors b^k/2+-1 and b^k-1, all-ones dividend, add-back family n = q*d + d - delta with >=3-digit divisors); (4) signed: all sign combinations plus MIN, -1, +-1, +-2, n=+-d, (MIN,-1); (5) zero divisors for the checked forms. Every case checks / % div rem and the checked/wrapping/overflowing/saturating/strict forms of div, rem, div_euclid, rem_euclid, plus div_floor, div_ceil, (checked_)next_multiple_of, against a binary shift-subtract reference division and re-derives n = q*d + r from bnum's own outputs. NON-TRIVIAL: a shadow run of Algorithm D on the reference side says the multi-digit path is reached (divisor >= 2 digits and |n| >= |d|), or signed operands with non-zero remainder and a negative operand (rounding variants differ), or a special case (zero divisor, MIN/-1). distinct = distinct (profile, job, inputs) among non-trivial cases by 64-bit hash. 8-bit configuration enumerated completely. A deterministic SWEEP additionally enumerates, per configuration, position-specific inputs (2^k - 1, 2^k, 2^k + 1 with their negations and complements; carry / borrow chains and power-of-two products ending at every bit position k; every shift / rotate amount; every bit index; every float exponent) - all positions on types up to 1088 bits, a sparse selection of a few hundred positions on wider types in the quick tier, all positions in the thorough tier.",
+            rule: "(dividend, divisor) pairs come from: (1) structured patterns with the divisor shaped to k = 1..N significant digits and 0..digit_bits-1 leading zeros in its top digit; (2) backwards construction n = q*d + r with r in {0, 1, d-1, d/2, random, d-delta} and extreme quotient digits; (3) Algorithm-D stress shapes scaled to each digit base (Hacker's Delight add-back and qhat=b+1 cases, dividends whose leading digits equal the divisor's, divisors b^k/2+-1 and b^k-1, all-ones dividend, add-back family n = q*d + d - delta with >=3-digit divisors); (4) signed: all sign combinations plus MIN, -1, +-1, +-2, n=+-d, (MIN,-1); (5) zero divisors for the checked forms. Every case checks / % div rem and the checked/wrapping/overflowing/saturating/strict forms of div, rem, div_euclid, rem_euclid, plus div_floor, div_ceil, (checked_)next_multiple_of, against a binary shift-subtract reference division and re-derives n = q*d + r from bnum's own outputs. NON-TRIVIAL: a shadow run of Algorithm D on the reference side says the multi-digit path is reached (divisor >= 2 digits and |n| >= |d|), or signed operands with non-zero remainder and a negative operand (rounding variants differ), or a special case (zero divisor, MIN/-1). distinct = distinct (profile, job, inputs) among non-trivial cases by 64-bit hash. 8-bit configuration enumerated completely. A deterministic SWEEP additionally enumerates, per configuration, position-specific inputs (2^k - 1, 2^k, 2^k + 1 with their negations and complements; carry / borrow chains and power-of-two products ending at every bit position k; every shift / rotate amount; every bit index; every float exponent) - all positions on types up to 1088 bits, a sparse selection of a few hundred positions on wider types in the quick tier, all positions in the thorough tier. SIBLINGS job (per configuration): the entry points of this property's own operations that other properties anchor - the six operand forms of the std operators (a op b, &a op b, a op &b, &a op &b, a op= b, a op= &b; for shifts every primitive and bnum-typed amount type), Sum/Product, and the num_traits forwarders - are compared with the inherent method / const twin (same value, same panic outcome), so that a regression confined to one rarely used entry point is reported by the check of the operation it belongs to as well as by C17/C18.",
             assumptions: &[
                 "digits()/from_digits()/to_bits()/from_bits() are the trusted observation channel",
                 "reference division is binary shift-and-subtract (no quotient-digit estimation), self-tested on every run",
